@@ -440,6 +440,10 @@ class ParSer(OnePort):
     Parallel/serial class
     """
 
+    @property
+    def zeroic(self):
+        return all(arg.zeroic for arg in self.args)
+
     def __str__(self):
 
         str = ''
@@ -741,7 +745,7 @@ class ParSer(OnePort):
         The short circuit current.
 
         """
-        if self.has_independent_source:
+        if self.has_independent_source or not self.zeroic:
             return self.cct.Isc(1, 0)
         return SuperpositionCurrent(0)
 
@@ -755,7 +759,7 @@ class ParSer(OnePort):
         The open circuit voltage.
 
         """
-        if self.has_independent_source:
+        if self.has_independent_source or not self.zeroic:
             return self.cct.Voc(1, 0)
         return SuperpositionVoltage(0)
 
